@@ -358,10 +358,12 @@ def padEven (pd : List Nat) : Except ErrKind (List Nat) := do
   let g ← segPadGuard pd.length
   pure (if g then pd ++ [segPadByte] else pd)
 
-/-- external lossless codec: a parameter (law stated where it is used) -/
+/-- external lossless codec: a parameter (law stated where it is used); `j2k` marks JPEG 2000 Lossless, the one
+    encapsulated syntax the constructor lets through for BINARY -/
 structure Codec where
   enc : List Nat → List Nat
   dec : List Nat → List Nat
+  j2k : Bool := false
 
 inductive PixelData
   | native (bytes : List Nat)
@@ -390,6 +392,11 @@ def encodePixelData (codec : Option Codec) (rows cols bits : Nat) (frames : List
     let pd ← padEven raw
     pure (.native pd)
 
+/-- encapsulated and not JPEG 2000 Lossless -/
+def refusedForBinary : Option Codec → Bool
+  | some c => !c.j2k
+  | none => false
+
 /-- argument checks that do not look at the pixels; result: BitsAllocated -/
 def checkArgs (codec : Option Codec) (t : SegType) (segs : List Nat) (mfv : Nat) : Except ErrKind Nat :=
   match checkSegs t segs with
@@ -398,7 +405,8 @@ def checkArgs (codec : Option Codec) (t : SegType) (segs : List Nat) (mfv : Nat)
     match (if t = .fractional then segMfvGuard mfv else .ok 0) with
     | .error e => .error e
     | .ok _ =>
-      if codec.isSome ∧ t = .binary then .error .value       -- encapsulated syntaxes are refused for BINARY
+      -- `TransferSyntaxUID != JPEG2000Lossless and TransferSyntaxUID.is_encapsulated` is refused for BINARY
+      if refusedForBinary codec = true ∧ t = .binary then .error .value
       else bitsFor t segs
 
 /-- `Segmentation.__init__` as far as pixels and per-frame references go.  `order` = `plane_sort_index`
@@ -454,20 +462,39 @@ def readRow (codec : Option Codec) (o : SegObj) (p : Nat) : Except ErrKind (List
     | .ok lab => .ok (o.segs.map fun s => lab.map fun v => if v = s then 1 else 0)
   else mapE (fun s => readKey codec o (some s, p)) o.segs
 
+/-- how a read treats requested sources that have no frame -/
+inductive ReadMode
+  | assertEmpty                 -- `assert_missing_frames_are_empty=True` (either entry point): no check at all
+  | byInstance (nsrc : Nat)     -- `get_pixels_by_source_instance`, default: the UID must be one of the `nsrc` source
+                                --   images the object lists (InstanceUIDs table = ReferencedSeriesSequence), whether or
+                                --   not a frame references it
+  | byFrame                     -- `get_pixels_by_source_frame`, default: the frame number must not exceed the highest
+                                --   frame number any stored frame references
+  deriving Repr, DecidableEq, Inhabited
+
+/-- the "missing source" refusal of the two read entry points, as the code has it: an *omitted* (empty) plane of a
+    listed source image is NOT missing; a source frame is missing only beyond `MAX(ReferencedFrameNumber)` -/
+def missingRefusal (o : SegObj) (request : List Nat) : ReadMode → Option ErrKind
+  | .assertEmpty => none
+  | .byInstance nsrc => if request.any (fun p => decide (nsrc ≤ p)) then some .key else none
+  | .byFrame =>
+    if request.any (fun p => decide (listMax (o.keys.map (·.2 + 1)) < p + 1)) then some .value else none
+
 /-- `get_pixels_by_source_instance` / `get_pixels_by_source_frame` with `rescale_fractional=False`:
     result indexed [requested source][segment][pixel]. -/
-def readBySource (codec : Option Codec) (o : SegObj) (request : List Nat) (allowMissing : Bool) :
+def readBySource (codec : Option Codec) (o : SegObj) (request : List Nat) (mode : ReadMode) :
     Except ErrKind (List (List (List Nat))) :=
   if ¬ o.keys.Nodup then .error .runtime                 -- columns do not identify unique frames
-  else if ¬ allowMissing ∧ request.any (fun p => ¬ (p ∈ o.keys.map (·.2))) then .error .key
-  else mapE (readRow codec o) request
+  else match missingRefusal o request mode with
+    | some e => .error e
+    | none => mapE (readRow codec o) request
 
 /-- construct, then read the planes `request` back -/
 def roundtrip (codec : Option Codec) (rows cols : Nat) (t : SegType) (segs : List Nat) (mfv : Nat) (omt : Bool)
-    (order : List Nat) (m : Mask) (request : List Nat) (allowMissing : Bool) :
+    (order : List Nat) (m : Mask) (request : List Nat) (mode : ReadMode) :
     Except ErrKind (List (List (List Nat))) := do
   let o ← build codec rows cols t segs mfv omt order m
-  readBySource codec o request allowMissing
+  readBySource codec o request mode
 
 /-! ## encoding workers -/
 
